@@ -44,3 +44,10 @@ class Ob:
         self.kinds = kinds
         self.shadow = shadow
         self.max_paths = max_paths
+
+
+def selftest_ob():
+    """Engine self-test as an obligation of every property (DESIGN 2.3)."""
+    from engine.selftest import run_selftest
+    return Ob('engine-selftest', run_selftest, budget=120,
+              bounds='306 repository tests under the engine vs plain CPython')
